@@ -490,6 +490,11 @@ func newRig() (*rig, error) {
 			cfg.ExtractHeadersTTL = time.Nanosecond
 		}
 		cfg.ExtractHeadersPath = extractHeadersPath
+		if headerTimeout > 0 {
+			// the deadline for reading a request's header; read_timeout (the
+			// whole request) stays at its default: none
+			cfg.ReadHeaderTimeout = headerTimeout
+		}
 		p, err := ipfsproxy.New(cfg)
 		if err != nil {
 			lastErr = err
